@@ -179,7 +179,7 @@ func (j *ImageJudge) Judge(img []byte, preModel map[int][]byte, wx, wz int, newD
 		case present && rerr != nil:
 			add("crash/ReadSector/other-chunk-unreadable/"+point, "chunk (%d,%d) was not being written but ReadSector fails after the crash: %v", x, z, rerr)
 		case present && !bytes.Equal(data, want):
-			add("crash/ReadSector/other-chunk-damaged/"+point, "chunk (%d,%d) was not being written but reads back %d bytes %x.. instead of its %d bytes %x..", x, z, len(data), clip(data), len(want), clip(want))
+			add("crash/ReadSector/other-chunk-damaged/"+point, "chunk (%d,%d) was not being written but reads back %d bytes %x.. instead of its %d bytes %x.. (first difference at byte %d)", x, z, len(data), clip(data), len(want), clip(want), diffAt(data, want))
 		case present && !ex:
 			add("crash/ExistSector/other-chunk-vanished/"+point, "chunk (%d,%d) was not being written but ExistSector is false after the crash", x, z)
 		case !present && (rerr == nil || ex):
